@@ -14,7 +14,7 @@ from fractions import Fraction
 
 from . import oracle as O
 from . import catalogue as K
-from .engine import load_repo
+from .engine import load_repo, mutable_ids
 
 FLAT = ("Point", "Line", "HalfLine", "Segment", "Plane")
 LIBNAME = {"Polygon": "ConvexPolygon", "Polyhedron": "ConvexPolyhedron"}
@@ -169,6 +169,12 @@ def check_intersection_case(g, a, b, klass, acc, label, faces=False):
             if v[0] == "exc" or abs(v[1] - ea) > 1e-7 * max(1.0, abs(ea)):
                 acc.fail(klass, "%s: area of the result %r, expected %r" % (name, v[1], ea), case)
                 return
+    # hidden state behind the answer (memoised results, cached helper objects handed out): the caller moves the object it was given and asks again
+    if val is not None and hasattr(val, "move") and not (mutable_ids(val) & (mutable_ids(A) | mutable_ids(B))):
+        kind, again = _call(lambda: (val.move(g.Vector(3, -1, 2)), forms[0][1]())[1])
+        if kind == "exc" or not O.matches(again, exact, 1e-7, faces=faces)[0]:
+            acc.fail(klass, "asked again after the caller moved the first answer: %r" % (again,), case, expected=ser(exact), observed=repr(again))
+            return
     acc.sample(dict(klass=klass, a=ser(a), b=ser(b), expected=ser(exact)))
 
 
